@@ -104,6 +104,8 @@ def run(P, rep, tier):
         sum_ok = sum_bad = 0
         child_src_bad = {}
         enc_bad = None
+        lines_bad = None
+        lines_ok = 0
         for path in I.explore(thunk):
             npaths += 1
             if npaths > 20000:
@@ -169,6 +171,17 @@ def run(P, rep, tier):
                                     any(isinstance(v, Unk) and 'OPT' in v.taint for k, v in e.data['args'].items() if k == 'encoding')]
                         if enc_used and not decoded:
                             enc_bad = ev
+                        # R8: the parser sees the lines of the diff bytes on the section newline
+                        from sa.props.reader_rules import src_chain
+                        sp = [e for e in evs if e.kind == 'summary-call' and e.data['callee'].name == 'split_lines']
+                        from_split = isinstance(lines, (Unk, AList)) and any(
+                            x.src and x.src[0] in ('summary', 'summary-elem') and 'split_lines' in str(x.src[1])
+                            for x in (src_chain(lines) if isinstance(lines, Unk) else src_chain(lines.elem) if lines.elem is not None else []))
+                        data_ok = any(isinstance(e.data['args'].get('data'), Unk) and any(x.src == ('diff',) for x in src_chain(e.data['args']['data'])) for e in sp)
+                        if not (sp and from_split and data_ok):
+                            lines_bad = ev
+                        else:
+                            lines_ok += 1
             # child reads (change/top): which keys of which dict
             for ev in evs:
                 if ev.kind == 'dict-get' and is_concrete(ev.data['key']):
@@ -215,6 +228,17 @@ def run(P, rep, tier):
                               'counts zero lines' % inst, path=[inst, hp.short])
             else:
                 rep.ok(r6, inst)
+            r8 = rep.rule('C13-R8', 'the hunk parser is given the lines of split_lines(<diff bytes>, <section newline>), nothing re-split '
+                          'or re-encoded', reference=1)
+            if lines_bad is not None:
+                rep.violation(r8, 'parser-input-not-split-lines', lines_bad.loc,
+                              '%s hands the hunk parser lines that are not split_lines(diff, newline) of the diff bytes (e.g. str.splitlines() '
+                              'of a decoded copy, which also breaks at FF, VT, NEL, U+2028 and bare CR): hunks are cut in the wrong places '
+                              'and the counts are lost or wrong' % inst, path=[inst, hp.short])
+            elif lines_ok:
+                rep.ok(r8, inst, {'paths': lines_ok})
+            else:
+                raise AnalysisError('%s: no call of the hunk parser observed' % inst)
         if sum_bad and cname == 'DiffXFileSection':
             rep.violation(r5, '%s:sum-shape' % level, gs.loc(), '%s: "lines changed" is not the sum of the stored insertions and deletions' % inst, path=[inst])
         elif sum_ok and cname == 'DiffXFileSection':
